@@ -18,6 +18,8 @@ def plan(tier, seed):
     if tier == "thorough":
         hs.append(("h_stats_two_columns_partial", 600))
     jobs = [ch("C05", F, h, to, FUN, env=dict(VERIF_SLEN=1 if tier == "quick" else 2)) for h, to in hs]
+    jobs.append(ch("C05", "vf/pyshim/h_convert.py", "h_stat_bound_decodes", t,
+                   ["encoding.read_plain (stat=True)", "converted_types.convert"]))
     jobs.append(ch("C05", "vf/pyshim/h_convert.py", "h_convert_intlike", t,
                    ["converted_types.convert (integer-like converted types; the value statistics are compared by)"]))
     extra = dict(
